@@ -128,7 +128,14 @@ impl<'a> G<'a> {
         let t = mk_time(secs);
         if self.allow("subsecond-time") && self.rng.chance(1, 8) {
             self.hostile_tags.push("subsecond-time".into());
-            return t + chrono::Duration::nanoseconds(123_456_789);
+            // fractions of a second, and the ends of chrono's own range (far outside years 1..9999)
+            return match self.rng.below(6) {
+                0 => chrono::NaiveDateTime::MAX,
+                1 => chrono::NaiveDateTime::MIN,
+                2 => chrono::NaiveDateTime::MAX - chrono::Duration::milliseconds(300),
+                3 => mk_time(253402300799) + chrono::Duration::milliseconds(999),
+                _ => t + chrono::Duration::nanoseconds(123_456_789),
+            };
         }
         t
     }
